@@ -406,10 +406,11 @@ class MatchV(V):
     """A successful match: concrete groups (Const) or symbolic (Atom group(i) of the subject)."""
     tag = 'match'
 
-    def __init__(self, regex, subject, groups):
+    def __init__(self, regex, subject, groups, names=None):
         self.regex = regex
         self.subject = subject
         self.groups = groups        # list of V, index 0 = whole match
+        self.names = names or {}    # group name -> index
 
     def key(self):
         return ('match', self.regex.key(), k(self.subject))
